@@ -23,6 +23,11 @@ def c01 (codec : Codec) (toks : List String) : Option (Codec × String) :=
       match readFile (convOfString conv) codec a n with
       | .ok d => pure (codec, "ok " ++ rleEncode d)
       | .error e => pure (codec, "err " ++ e)
+  | ["mpqunits", conv, arch, name] => do
+      let a ← rleDecode arch; let n ← bytesOfHex name
+      match storedUnits (convOfString conv) a n with
+      | .ok (flags, us) => pure (codec, s!"ok {flags} " ++ ";".intercalate (us.map fun (e, b) => s!"{e}:{rleEncode b}"))
+      | .error e => pure (codec, "err " ++ e)
   | ["mpqheader", arch] => do
       let a ← rleDecode arch
       match parseHeader a with
